@@ -14,7 +14,7 @@ from vf import geom
 from vf import xc17_geo as xg
 
 ID = "C17"
-BUDGET = {"quick": 9000, "thorough": 300000}
+BUDGET = {"quick": 16000, "thorough": 600000}
 MIN_KEYS = 60
 
 CLAMP_KINDS = ["line", "radial", "plane", "curve", "surface", "free"]
@@ -706,7 +706,9 @@ def run_surface(ctx, case):
     fam = case["fam"]
     surf = xg.Surface(case["surface"])
     box = case["bounds"]
-    label = f"surface[{fam}]"
+    # the family is not part of the mechanism key: what matters structurally is whether scipy runs L-BFGS-B (bounds)
+    # or BFGS (no bounds) on the two parameters
+    label = f"surface[{'bounded' if box is not None else 'unbounded'}]"
     slack = 1e-9
 
     def dist(q):
